@@ -1,7 +1,7 @@
 package main
 
 // C03 — aggregate functions equal their mathematical definition on the rows of the batch.
-// Four families of case lines (all values are exact: ints, dyadic float64s printed as exact
+// Families of case lines (all values are exact: ints, dyadic float64s printed as exact
 // rationals, byte strings as hex):
 //   C03 D <agg> <param> # <values> # <result>              one aggregator object: New/Add*/Result
 //   C03 P <agg> <param> # <values> # <result> # <result on a shuffled copy>
@@ -13,6 +13,8 @@ package main
 //                                                          SQL select list whose aggregate calls have DIFFERENT arguments
 //                                                          over the same column (x and its nested twin d.x):
 //                                                          <arg> = <x|dx>:<id|add|sub|mul>:<num/den>:<i|d>:<cl|lc>
+//   C03 H ... / C03 A ...                                  SQL whose batches may leave without a row (HAVING rejects the
+//                                                          batch; the analytic step suppresses an unchanged window): c03h.go
 import (
 	"encoding/hex"
 	"fmt"
@@ -21,6 +23,7 @@ import (
 	"strconv"
 	"strings"
 	"sync"
+	"time"
 
 	"github.com/rulego/streamsql"
 	"github.com/rulego/streamsql/aggregator"
@@ -398,7 +401,8 @@ func runC03(tier string, seed uint64, o *Out) error {
 			o.Count("sqlmix_two_dotted_args_same_column")
 		}
 	}
-	return nil
+	// (6) SQL with a HAVING clause: some batches of the run are rejected entirely, later ones pass (c03h.go)
+	return c3having(rng, tier, o)
 }
 
 // ---- family M: one select list, every aggregate call with its own argument over the same column ----
@@ -679,6 +683,13 @@ func c3sql(shape string, n int, aggs [][2]string, cells []c3val) (string, error)
 // c3sqlRun runs one query instance over the rows of the cells (CountingWindow(n): batch b = rows b*n .. b*n+n-1)
 // and prints, per batch, the k columns a0..a(k-1).
 func c3sqlRun(q string, n, k int, cells []c3val, mkRow func(i int, c c3val) map[string]any) (string, error) {
+	return c3sqlRunW(q, n, k, cells, mkRow, false)
+}
+
+// c3sqlRunW: sparse = batches may legitimately deliver nothing (HAVING). The output cannot tell then when the run is
+// over, so the wait first reads the counting window's own statistics (every full batch sent and taken by the
+// consumer) and only then waits for the sinks to fall quiet; a missing batch is printed as E and is no error.
+func c3sqlRunW(q string, n, k int, cells []c3val, mkRow func(i int, c c3val) map[string]any, sparse bool) (string, error) {
 	s := streamsql.New(streamsql.WithDiscardLog())
 	if err := s.Execute(q); err != nil {
 		s.Stop()
@@ -706,6 +717,15 @@ func c3sqlRun(q string, n, k int, cells []c3val, mkRow func(i int, c c3val) map[
 		s.Emit(mkRow(i, c))
 	}
 	nb := len(cells) / n
+	if sparse {
+		for i := 0; i < 500; i++ {
+			st := s.GetStats()
+			if st["sentCount"] >= int64(nb) && st["bufferUsed"] == 0 && st["data_chan_len"] == 0 {
+				break
+			}
+			time.Sleep(10 * time.Millisecond)
+		}
+	}
 	waitQuiet(func() int { mu.Lock(); defer mu.Unlock(); return len(got) })
 	s.Stop()
 	mu.Lock()
@@ -723,7 +743,7 @@ func c3sqlRun(q string, n, k int, cells []c3val, mkRow func(i int, c c3val) map[
 			out = append(out, "E")
 		}
 	}
-	if extra > 0 || len(got) != nb {
+	if extra > 0 || (len(got) != nb && !sparse) {
 		out = append(out, fmt.Sprintf("e%d", extra))
 	}
 	return strings.Join(out, " # "), nil
